@@ -35,7 +35,10 @@ def receiver_calls_with_locks(repo: Repo) -> list[tuple[FuncInfo, ast.Call, Func
         for c in repo.calls_in(fi):
             here = held | frozenset(lexical_locks(repo, fi, c))
             targets = list(repo.resolve_call(c, fi))
-            if fi.short == "Message.received" and "_types" in xtext(repo, fi, c.func):
+            if fi.short == "Message.received" and not targets and ("_types" in xtext(repo, fi, c.func) or (
+                    isinstance(c.func, ast.Name) and any("_types" in xtext(repo, fi, a_.value) for a_ in repo.own_nodes(fi)
+                                                        if isinstance(a_, ast.Assign) and any(isinstance(x, ast.Name) and x.id == c.func.id for t_ in a_.targets for x in ast.walk(t_))))):
+                # the handler taken from the registry (directly, or unpacked into a local first)
                 targets = [h for (_n, h) in reg.values()]
             for t in targets:
                 if t.short in ("WorkerGateway.executetask",) or t.name == "_perform_spawn":
